@@ -312,7 +312,7 @@ impl Valid {
         if !rd.violations.is_empty() {
             push_violation(
                 ctx.violations,
-                violation("C08", "not-delaunay-after-repair", ctx.step, format!("op={kind}|delaunay|heuristic={}|d={}|{}", out.used_heuristic, D, rd.violation_class()), format!("repair reported success but {} exact empty-circumsphere violations remain, e.g. {:x?}", rd.violations.len(), rd.violations[0])),
+                violation("C08", "not-delaunay-after-repair", ctx.step, format!("op={kind}|delaunay|heuristic={}|d={}|{}", out.used_heuristic, D, rd.violation_class()), format!("repair reported success but {} exact empty-circumsphere violations remain, e.g. {:x?} (local violations {}, locally violating facets {}, of which with a flat flip {})", rd.violations.len(), rd.violations[0], rd.local_violations, rd.local_facets, rd.local_facets_degenerate_flip)),
             );
         }
         // budget: with an explicit flip budget the reported flips never exceed it
